@@ -97,22 +97,8 @@ pub fn check_with(ctx_kf: &crate::refimpl::treebuilder::Switches, tc: &TreeCase,
     let mut cfg = tc.cfg.clone();
     cfg.drop_doctype = false;
     let obs = observe(&cfg, &tc.chunks);
-    let rf = c02::run_reference(&cfg, &tc.input, ctx_kf);
-    if rf.dump != obs.tree {
-        st.exclude("tree differs from the reference (decided by C02)");
-        return Ok(());
-    }
-    let expected: Vec<String> = rf.metas.iter().filter_map(|(c, h, ct)| expected_label(c, h, ct)).collect();
-    if obs.labels != expected {
-        return Err(format!(
-            "EncodingIndicator sequence {:?}, expected {:?} from the inserted meta elements {:?}; chunks {:?}",
-            obs.labels, expected, rf.metas, tc.chunks
-        ));
-    }
-    if let Some(i) = obs.connected.iter().position(|c| !*c) {
-        return Err(format!("indicator #{i} was returned before its meta element was in the tree"));
-    }
     // resuming continues as if nothing had happened: twin document without declarations
+    // (decided before, and independently of, the comparison with the reference tree builder)
     let tw_input = twin(&tc.input);
     let tw_chunks: Vec<String> = {
         // same cut positions (the rename keeps lengths)
@@ -133,6 +119,21 @@ pub fn check_with(ctx_kf: &crate::refimpl::treebuilder::Switches, tc: &TreeCase,
             "tree after resuming from the indicators differs from the twin document without declarations: {}",
             first_diff(&twin(&obs.tree), &twin(&tw.tree))
         ));
+    }
+    let rf = c02::run_reference(&cfg, &tc.input, ctx_kf);
+    if rf.dump != obs.tree {
+        st.exclude("tree differs from the reference (decided by C02)");
+        return Ok(());
+    }
+    let expected: Vec<String> = rf.metas.iter().filter_map(|(c, h, ct)| expected_label(c, h, ct)).collect();
+    if obs.labels != expected {
+        return Err(format!(
+            "EncodingIndicator sequence {:?}, expected {:?} from the inserted meta elements {:?}; chunks {:?}",
+            obs.labels, expected, rf.metas, tc.chunks
+        ));
+    }
+    if let Some(i) = obs.connected.iter().position(|c| !*c) {
+        return Err(format!("indicator #{i} was returned before its meta element was in the tree"));
     }
     if !expected.is_empty() {
         st.label("indicator expected");
